@@ -124,13 +124,21 @@ def one(args):
             env = dict(os.environ)
             env['CARGO_NET_OFFLINE'] = 'true'
             env['CARGO_TARGET_DIR'] = os.path.join(tmp, 'target')
+            import signal
+            # own process group, killed as a whole on timeout: a mutant that makes a test loop forever must not
+            # leave the test binary running after this explorer is gone
+            pr = subprocess.Popen('cargo test --offline --no-fail-fast 2>&1 | grep -E "^test result|panicked|FAILED|error" | head -20', shell=True, cwd=root, env=env, stdout=subprocess.PIPE, stderr=subprocess.DEVNULL, text=True, start_new_session=True)
             try:
-                p = subprocess.run('cargo test --offline --no-fail-fast 2>&1 | grep -E "^test result|panicked|FAILED|error" | head -20', shell=True, cwd=root, env=env, capture_output=True, text=True, timeout=600)
-                o = p.stdout
+                o, _ = pr.communicate(timeout=600)
                 lines = [l for l in o.split('\n') if l.startswith('test result')]
                 res['tests'] = 'pass' if len(lines) >= EXPECTED_RESULT_LINES and all(' ok.' in l for l in lines) and 'FAILED' not in o else 'fail'
             except subprocess.TimeoutExpired:
                 res['tests'] = 'timeout'
+            finally:
+                try:
+                    os.killpg(pr.pid, signal.SIGKILL)
+                except Exception:
+                    pass
         return res
     finally:
         shutil.rmtree(tmp, ignore_errors=True)
